@@ -213,10 +213,10 @@ class PyLoop:
             return ['INPUT']
         if name == 'mem.write_bit':
             root, delta = self.classify_addr(c.args[0], 'bit')
-            if root == 'in' and delta == 0:
-                return ['INPUT_STORE']
             if root == 'f' and delta == 0:
                 return ['FLIP']
+            if (root == 'in' and delta == 0) or self._is_input_bit(c.args[1]):
+                return ['INPUT_STORE']       # the address itself is judged by C01.GUARDS (INPUT_ADDR)
             self.unrecognised.append(f'write_bit at unclassified address: {ast.unparse(c)}')
             return []
         if name == 'mem.read_bit':
@@ -226,6 +226,16 @@ class PyLoop:
         if name in ('_handle_output', '_handle_input'):
             return self._helper_summary(name, c)
         return []
+
+    def _is_input_bit(self, v: ast.AST) -> bool:
+        """v is a local that is assigned from the device's read_bit call."""
+        if not isinstance(v, ast.Name):
+            return False
+        for n in walk_no_nested(self.fn):
+            if isinstance(n, ast.Assign) and isinstance(n.targets[0], ast.Name) and n.targets[0].id == v.id \
+                    and isinstance(n.value, ast.Call) and self._call_name(n.value) == 'io_device.read_bit':
+                return True
+        return False
 
     def _helper_summary(self, name: str, call: ast.Call) -> List[str]:
         """one level of inlining: classify the helper's own statements in source order."""
@@ -513,12 +523,7 @@ class CLoop:
                 return ['INPUT']
             return []
         if cn == 'mem_write_bit':
-            lin = to_lin(c_ir(args[1], self.cu.src_of), self.env)
-            root, delta = classify_lin(lin, self.roles, 'bit')
-            if root == 'in' and delta == 0:
-                return ['INPUT_STORE']
-            self.unrecognised.append(f'{self.cu.site(c)}: mem_write_bit at {self.cu.src_of(args[1])}')
-            return []
+            return ['INPUT_STORE']           # the address is judged by C01.GUARDS (INPUT_ADDR)
         if cn == 'mem_flip_bit':
             lin = to_lin(c_ir(args[1], self.cu.src_of), self.env)
             root, delta = classify_lin(lin, self.roles, 'bit')
